@@ -2,6 +2,7 @@
 import os, json, shutil, concurrent.futures
 from lib import vlib
 
+READY = False
 RULE = ("one case per state of Hostile.tla: (entry point, valid base encoding, sequence of <= Depth corruptions: every truncation, every position set to "
         "boundary values and +-1, every 2/4-byte run driven to extremes/wrap values/own length, appended garbage; text: separators, deletions, duplications); "
         "distinct = distinct corrupted inputs per base")
